@@ -183,9 +183,10 @@ static int r_dataset(int i, char *nm, long *a, long *m) { CGNS_ENUMT(BCType_t) t
 static int zc(void) { return cg_zconn_set(fn, cB, Z, ix("ZoneGridConnectivity_t")); }
 static int w_conn(const char *n, long p, int *i)
 {
-    cgsize_t pnt[1] = {1};
+    cgsize_t pnt[1] = {1}, size[9]; char zn[33];
     if (zc()) return 1;
-    return cg_conn_write_short(fn, cB, Z, n, p % 2 ? CGNS_ENUMV(CellCenter) : CGNS_ENUMV(Vertex), CGNS_ENUMV(Overset), CGNS_ENUMV(PointList), 1, pnt, "Donor", i);
+    if (cg_zone_read(fn, cB, Z, zn, size)) return 1;      /* cg_conn_info looks the donor zone up: the zone itself */
+    return cg_conn_write_short(fn, cB, Z, n, p % 2 ? CGNS_ENUMV(CellCenter) : CGNS_ENUMV(Vertex), CGNS_ENUMV(Overset), CGNS_ENUMV(PointList), 1, pnt, zn, i);
 }
 static int n_conn(int *n) { if (zc()) return 1; return cg_nconns(fn, cB, Z, n); }
 static int r_conn(int i, char *nm, long *a, long *m)
@@ -323,10 +324,24 @@ static int r_array(int i, char *nm, long *a, long *m)
     return rc;
 }
 static int w_integral(const char *n, long p, int *i) { *i = 0; return cg_integral_write(n); }
-static int n_integral(int *n) { return cg_nintegrals(n); }
+/* cg_nintegrals / cg_nmultifam have no arm for some parents the writers and readers accept (ParticleZone_t): count by
+   reading until the reader refuses */
+static int n_integral(int *n)
+{
+    char nm[33];
+    if (!cg_nintegrals(n)) return 0;
+    for (*n = 0; *n < 500 && !cg_integral_read(*n + 1, nm); (*n)++) ;
+    return 0;
+}
 static int r_integral(int i, char *nm, long *a, long *m) { *m = -1; return cg_integral_read(i, nm); }
 static int w_multifam(const char *n, long p, int *i) { char f[40]; *i = 0; snprintf(f, sizeof f, "F%ld", p); return cg_multifam_write(n, f); }
-static int n_multifam(int *n) { return cg_nmultifam(n); }
+static int n_multifam(int *n)
+{
+    char nm[33], f[CG_MAX_GOTO_DEPTH * 33 + 1];
+    if (!cg_nmultifam(n)) return 0;
+    for (*n = 0; *n < 500 && !cg_multifam_read(*n + 1, nm, f); (*n)++) ;
+    return 0;
+}
 static int r_multifam(int i, char *nm, long *a, long *m) { char f[CG_MAX_GOTO_DEPTH * 33 + 1]; int rc = cg_multifam_read(i, nm, f); *a = rc ? -1 : atol(f + 1); *m = 0; return rc; }
 static int w_famname(const char *n, long p, int *i) { char f[40]; *i = 0; snprintf(f, sizeof f, "F%ld", p); return cg_node_family_name_write(n, f); }
 static int n_famname(int *n) { return cg_node_nfamily_names(n); }
@@ -422,8 +437,14 @@ static void do_write(void)
     dbg(label, rc);
     if (rc) { printf("w 1 0\n"); return; }
     if (idx == 0) {                       /* node-context writers hand back no index: find it by name */
-        int n = 0; char nm[CG_MAX_GOTO_DEPTH * 33 + 1]; long a, m;
-        if (!k->cnt(&n)) for (int i = 1; i <= n; i++) if (!k->rd(i, nm, &a, &m) && !strcmp(nm, name)) { idx = i; break; }
+        int n = 0, pos = 0; char nm[CG_MAX_GOTO_DEPTH * 33 + 1]; long a, m;
+        int isd = !strcmp(label, "Descriptor_t");
+        if (!k->cnt(&n)) for (int i = 1; i <= n; i++) {
+            if (k->rd(i, nm, &a, &m)) continue;
+            if (isd && !strcmp(nm, "P")) continue;            /* the harness' own payload descriptor is not a sibling */
+            pos++;
+            if (!strcmp(nm, name)) { idx = pos; break; }
+        }
     }
     if (k->descr) {
         char cp[4096];
